@@ -143,10 +143,15 @@ impl Marlin {
                     gather_ok(commitments@, evaluations@, *point, ls, it3.index@ as nat),
                     forall|i: int| 0 <= i < it3.index@ ==> (#[trigger] comms_to_combine@[i]) == commitments@[&ls[i]] && values_to_combine@[i] == evaluations@[(ls[i], *point)],
 //@loopstart 3
-                    let ghost j = it3.index@;
+                    let ghost j = it3.index@; let ghost c0__ = comms_to_combine@; let ghost v0__ = values_to_combine@;
                     proof { assert(*label == ls[j]); }
 //@loopend 3
-                    proof { assert(comms_to_combine@[j] == commitments@[&ls[j]]); assert(values_to_combine@[j] == evaluations@[(ls[j], *point)]); }
+                    proof {
+                        assert(comms_to_combine@[j] == commitments@[&ls[j]]); assert(values_to_combine@[j] == evaluations@[(ls[j], *point)]);
+                        assert forall|i: int| 0 <= i < j + 1 implies (#[trigger] comms_to_combine@[i]) == commitments@[&ls[i]] && values_to_combine@[i] == evaluations@[(ls[i], *point)] by {
+                            if i < j { assert(comms_to_combine@[i] == c0__[i]); assert(values_to_combine@[i] == v0__[i]); assert(c0__[i] == commitments@[&ls[i]]); }
+                        }
+                    }
 //@afterloop 3
                 proof {
                     assert forall|i: int| 0 <= i < ls.len() implies values_to_combine@[i] == gather_v(evaluations@, *point, ls)[i] by { let c = comms_to_combine@[i]; assert(c == commitments@[&ls[i]]); }
